@@ -28,11 +28,16 @@ package maintenance
 // (assumed to be the recorded one); scripts ver .. len-1 are executed in order,
 // each followed by its version record, and nothing else of this stream.
 //@ spec fn created(clusterName string) int = clusterName != "" ? 2 : 1
+// Every script file is its own stream of the version table: two files sharing
+// a stream key would skip or repeat each other's scripts.
+//@ ghost var streamUsed Array[Int,Bool]
 //@ func updateScripts [C18]
 //@   requires k >= 0
-//@   ensures up-to-date: result == nil && ver >= len(scripts) ==> dbN == old(dbN) + created(clusterName) && dbVer == old(dbVer)
-//@   ensures all-applied: result == nil && ver < len(scripts) ==> dbN == old(dbN) + created(clusterName) + 2 * (len(scripts) - ver) && dbVer[k] == max(old(dbVer)[k], len(scripts))
-//@   ensures never-ahead: dbN >= old(dbN) + created(clusterName) ==> dbVer[k] <= max(old(dbVer)[k], ver + (dbN - old(dbN) - created(clusterName)) / 2)
+//@   requires own-stream-key: !streamUsed[k]
+//@   ghostset streamUsed = upd(streamUsed, k, true)
+//@   check up-to-date: result == nil && ver >= len(scripts) ==> dbN == old(dbN) + created(clusterName) && dbVer == old(dbVer)
+//@   check all-applied: result == nil && ver < len(scripts) ==> dbN == old(dbN) + created(clusterName) + 2 * (len(scripts) - ver) && dbVer[k] == max(old(dbVer)[k], len(scripts))
+//@   check never-ahead: dbN >= old(dbN) + created(clusterName) ==> dbVer[k] <= max(old(dbVer)[k], ver + (dbN - old(dbN) - created(clusterName)) / 2)
 //@   ensures other-streams: forall s int :: s != k ==> dbVer[s] == old(dbVer)[s]
 //@   loop 1:
 //@     modifies ver
@@ -133,3 +138,7 @@ package maintenance
 //@     top:   return &replayRows{}, nil
 //@     top: }
 //@   end
+
+// Initialisation applies each script file under its own stream key.
+//@ func Update [C18]
+//@   requires streamUsed == constmap("Int", false)
